@@ -365,7 +365,9 @@ Qed.
 Record gcfg := mkGcfg {
   g_wrap : opk -> opk -> bool;       (* the `if` of group_operation.wrapper *)
   g_init : bool;                     (* group_operation: INIT forces a CTE *)
-  g_kind : option opk }.             (* decorator argument of GroupedData.agg *)
+  g_kind : option opk;               (* decorator argument of GroupedData.agg *)
+  g_flag_desc : bool -> bool;        (* orderBy: ascending flag -> DESC? *)
+  g_flag_nf : bool -> bool }.        (* orderBy: ascending flag -> NULLS FIRST? *)
 
 Record ydf := mkY { y_pre : list stage; y_d : df; y_ics : list string }.
 
@@ -436,6 +438,10 @@ Section ModelY.
             end
         | None => None
         end
+    | XOrderFlags ks =>
+        (* orderBy(names, ascending=flags): the ordinary orderBy step; direction and NULL placement of each term are
+           what the method derives from the flag (generated) *)
+        Some (mkY (y_pre Y) (step c d (OOrderBy (flag_keys (g_flag_desc g) (g_flag_nf g) ks))) (y_ics Y))
     | _ => option_map (fun d' => mkY (y_pre Y) d' (y_ics Y)) (step_x c deco d x)
     end.
 
@@ -693,8 +699,21 @@ Section YProof.
     | XDropDup subset =>
         negb (mem row_num cur) && forallb (fun s => mem s cur) subset
         && match subset with [] => false | _ => true end
+    | XOrderFlags ks => op_ok c (y_d Y) (y_ics Y) (OOrderBy (flag_keys negb (fun asc => asc) ks))
     | _ => x_ok c (y_d Y) (y_ics Y) x
     end.
+
+  (** instantiation obligation on the generated flag functions: Spark's rule (descending iff not ascending;
+      ascending keys put NULLs first, descending keys put them last) *)
+  Definition flags_ok : bool :=
+    forallb (fun asc => Bool.eqb (g_flag_desc g asc) (negb asc) && Bool.eqb (g_flag_nf g asc) asc) [true; false].
+  Lemma flags_ok_keys ks : flags_ok = true -> flag_keys (g_flag_desc g) (g_flag_nf g) ks = flag_keys negb (fun asc => asc) ks.
+  Proof.
+    intro H. unfold flags_ok in H. rewrite forallb_forall in H. unfold flag_keys. apply map_ext. intros [n asc]. cbn [fst snd].
+    assert (Hin : In asc [true; false]) by (destruct asc; simpl; tauto).
+    specialize (H asc Hin). apply andb_true_iff in H. destruct H as [H1 H2].
+    apply Bool.eqb_prop in H1, H2. rewrite H1, H2. reflexivity.
+  Qed.
 
   Lemma source_stages d input : source d input = eval_stages (map SB (done d)) input.
   Proof. unfold source. symmetry. apply eval_stages_blocks. Qed.
@@ -874,7 +893,7 @@ Section YProof.
 
   (** ** every list over the whole alphabet *)
   Definition deco_ok_y : bool :=
-    deco_ok c deco &&
+    deco_ok c deco && flags_ok &&
     match deco "groupBy"%string, g_kind g, deco "unpivot"%string, deco "dropDuplicates"%string with
     | Some kg, Some ka, Some ku, Some kdd => agg_ok kg ka && kind_reach_ok c ku && kind_reach_ok c kdd
     | _, _, _, _ => false
@@ -893,6 +912,7 @@ Section YProof.
     exists Y', step_y c g deco Y x = Some Y' /\ eval_y Y' input = ref_x x (eval_y Y input) /\ YInv Y' input.
   Proof.
     intros Hdk HY Hx Hv. unfold deco_ok_y in Hdk. apply andb_true_iff in Hdk. destruct Hdk as [Hdk Hdk2].
+    apply andb_true_iff in Hdk. destruct Hdk as [Hdk Hflags].
     destruct (deco "groupBy"%string) as [kg|] eqn:Dg; [|discriminate].
     destruct (g_kind g) as [ka|] eqn:Dk; [|discriminate].
     destruct (deco "unpivot"%string) as [ku|] eqn:Du; [|discriminate].
@@ -916,6 +936,11 @@ Section YProof.
     - apply (dropdup_correct kdd); auto.
     - apply (unpivot_correct ku); auto. destruct vals; [discriminate Hv | discriminate].
     - apply (agg_correct kg ka); auto.
+    - destruct HY as (HI & Hcs & Hwf). cbn [step_y y_ok] in *. rewrite (flags_ok_keys ks Hflags).
+      eexists. split; [reflexivity|].
+      destruct (gstep_correct c Hcfg Hlim (y_d Y) (y_ics Y) (eval_stages (y_pre Y) input) _ Hcs Hwf HI Hx eq_refl)
+        as [He HI'].
+      split; [exact He|]. split; [exact HI' | split; assumption].
   Qed.
 
   Theorem ychain_correct xs : forall Y input,
